@@ -72,6 +72,21 @@ fn pname<'tcx>(tcx: TyCtxt<'tcx>, did: DefId) -> String {
     with_no_visible_paths!(with_no_trimmed_paths!(with_resolve_crate_name!(tcx.def_path_str(did))))
 }
 
+fn inst_name<'tcx>(tcx: TyCtxt<'tcx>, inst: Instance<'tcx>) -> String {
+    match inst.def {
+        ty::InstanceKind::ClosureOnceShim { .. } | ty::InstanceKind::FnPtrShim(..) => {
+            if let Some(t) = inst.args.types().next() {
+                match t.kind() {
+                    ty::Closure(d, _) | ty::FnDef(d, _) => return pname(tcx, *d),
+                    _ => {}
+                }
+            }
+            pname(tcx, inst.def_id())
+        }
+        _ => pname(tcx, inst.def_id()),
+    }
+}
+
 fn tname<'tcx>(ty: Ty<'tcx>) -> String {
     with_no_visible_paths!(with_no_trimmed_paths!(with_resolve_crate_name!(format!("{}", ty))))
 }
@@ -321,7 +336,7 @@ impl<'tcx> Ex<'tcx> {
         let tcx = self.tcx;
         let mut o = vec![("$fn", J::S(pname(tcx, d)))];
         if let Ok(Some(inst)) = Instance::try_resolve(tcx, env, d, args) {
-            o.push(("resolved", J::S(pname(tcx, inst.def_id()))));
+            o.push(("resolved", J::S(inst_name(tcx, inst))));
         }
         J::obj(o)
     }
@@ -333,7 +348,7 @@ impl<'tcx> Ex<'tcx> {
             return J::obj(vec![("$opaque", J::S("depth".into()))]);
         }
         match tcx.global_alloc(alloc_id) {
-            GlobalAlloc::Function { instance } => J::obj(vec![("$fn", J::S(pname(tcx, instance.def_id())))]),
+            GlobalAlloc::Function { instance } => J::obj(vec![("$fn", J::S(inst_name(tcx, instance)))]),
             GlobalAlloc::Static(d) => J::obj(vec![("$static", J::S(pname(tcx, d)))]),
             GlobalAlloc::Memory(a) => {
                 let inner = match ty.kind() {
@@ -540,7 +555,7 @@ impl<'tcx> Ex<'tcx> {
                 let prov = alloc.provenance().ptrs().get(&off).copied();
                 match prov {
                     Some(p) => match tcx.global_alloc(p.alloc_id()) {
-                        GlobalAlloc::Function { instance } => J::obj(vec![("$fn", J::S(pname(tcx, instance.def_id())))]),
+                        GlobalAlloc::Function { instance } => J::obj(vec![("$fn", J::S(inst_name(tcx, instance)))]),
                         other => J::obj(vec![("$opaque", J::S(format!("{:?}", other)))]),
                     },
                     None => J::Null,
@@ -892,7 +907,7 @@ impl<'tcx> Ex<'tcx> {
                         let mut doc = self.has_doc_panics(*d);
                         if let Ok(Some(inst)) = Instance::try_resolve(tcx, env, *d, gargs) {
                             let rd = inst.def_id();
-                            o.push(("resolved", J::S(pname(tcx, rd))));
+                            o.push(("resolved", J::S(inst_name(tcx, inst))));
                             o.push(("resolved_crate", J::S(tcx.crate_name(rd.krate).to_string())));
                             o.push(("instance_kind", J::S(format!("{:?}", std::mem::discriminant(&inst.def)).replace("Discriminant", ""))));
                             o.push(("instance", J::S(match inst.def {
